@@ -223,9 +223,14 @@ impl<T: Qcow2IoOps> Qcow2Dev<T> {
             }
         };
 
-        if let Some(lock) = cluster_lock {
+        if let Some(mut lock) = cluster_lock {
             if let Some(df) = discard {
-                df.await?
+                if let Err(err) = df.await {
+                    // Not zeroed: the cluster stays new, so it keeps reading
+                    // as zero and its next writer zeroes it again.
+                    *lock = false;
+                    return Err(err);
+                }
             }
 
             let cow_res = match cow_mapping {
@@ -242,14 +247,16 @@ impl<T: Qcow2IoOps> Qcow2Dev<T> {
             };
 
             /*
-             * Another write on this new cluster may hold the read lock
-             * and we won't move on, so drop write lock first given
-             * we have marked that this new cluster is being discarded.
+             * The cluster leaves the new-cluster set before its lock is
+             * released: whoever gets the lock next writes data which
+             * readers have to see from then on (a cluster in the set reads
+             * as zero).  Nobody waits for this lock while holding the set's
+             * lock, so taking the set's write lock here can't deadlock.
              */
-            drop(lock);
             #[cfg(qcow2_rs_verif)]
             crate::verif::probe("dwdf:wait-clear-new");
             self.clear_new_cluster(key).await;
+            drop(lock);
             if may_cow {
                 // make sure data flushed before updating mapping
                 self.call_fsync(host_off, info.cluster_size(), 0).await?;
